@@ -173,8 +173,15 @@ fn fresh_tree(
             let input = gen::normalize(&scn.opts.input);
             let mut relaxed = Vec::new();
             for text in errors {
-                if let Some(first) = crate::c11::quoted_paths(text).first() {
-                    let source = gen::normalize(first);
+                let mut best: Option<(usize, String)> = None;
+                for path in current.keys().filter(|p| gen::is_lua(p)) {
+                    if let Some(pos) = crate::c11::mention(text, path) {
+                        if best.as_ref().map(|(b, _)| pos < *b).unwrap_or(true) {
+                            best = Some((pos, path.clone()));
+                        }
+                    }
+                }
+                if let Some((_, source)) = best {
                     if let Some(rel) = source.strip_prefix(&format!("{}/", input)) {
                         relaxed.push(gen::join(region, rel));
                     } else if source == input {
